@@ -90,7 +90,7 @@ def oracle(comp, s):
     if comp == "3":
         m = email.message.EmailMessage()
         try: m["content-type"] = s
-        except ValueError: return []
+        except (ValueError, IndexError): return []                     # line breaks; malformed RFC 2231 parameters ("a*")
         params = m["content-type"].params
         out = ["v" + m.get_content_type()]
         if "charset" in params: out.append("c" + params["charset"])
